@@ -457,9 +457,16 @@ namespace adept {
 	// recover by trying smaller step sizes
 	bool cost_invalid = !std::isfinite(new_cost);
 
-	if (new_cost >= cost_function_ || cost_invalid) {
+	if (new_cost > cost_function_
+	    || (new_cost == cost_function_
+		&& (bound_type == 0 || all(new_x == x)))
+	    || cost_invalid) {
 	  // We haven't managed to reduce the cost function: increase
-	  // damping value to take smaller steps
+	  // damping value to take smaller steps.  A step that moves a
+	  // variable onto its bound is accepted even if the cost
+	  // function is unchanged: when the variable was within rounding
+	  // error of the bound no other step is possible, and the
+	  // number of variables in play is reduced.
 	  if (damping <= 0.0) {
 	    damping = levenberg_damping_restart_;
 	  }
